@@ -77,3 +77,29 @@ package bw6633
 //@ ensures[value] pok ==> isnil(result1) && result0 == (pv == 0)
 //@ modifies nothing
 //@ end
+
+// The entry guard of the Miller loops: an empty input or a size mismatch is refused with an error before anything
+// is computed, and every execution that gets past the guard has n >= 1 equal operand counts. The analysis stops at
+// the first statement after the guard ("+ stop"): the loops themselves (infinity filtering, line evaluations) are
+// not under contract.
+//@ func MillerLoop
+//@ layer opaque G1Affine G2Affine fptower.E6
+//@ option opaque-calls
+//@ cut before def p #1
+//@ + invariant[sizes-checked] len(P) >= 1 && len(P) == len(Q)
+//@ + stop
+//@ ensures[refused] !isnil(result1)
+//@ ensures[exactly] len(P) == 0 || len(P) != len(Q)
+//@ modifies nothing
+//@ end
+
+//@ func MillerLoopFixedQ
+//@ layer opaque G1Affine fptower.E6 LineEvaluationAff
+//@ option opaque-calls
+//@ cut before def yInv #1
+//@ + invariant[sizes-checked] len(P) >= 1 && len(P) == len(lines)
+//@ + stop
+//@ ensures[refused] !isnil(result1)
+//@ ensures[exactly] len(P) == 0 || len(P) != len(lines)
+//@ modifies nothing
+//@ end
